@@ -227,6 +227,17 @@ func checkC13(c C13Case, o *h.Obs) *h.Fail {
 	// (2) Text against the reference formatter, always
 	want := model.Format(xv, mode, textVerb[0], fprec, c.X.P)
 	got := x.Text(textVerb[0], fprec)
+	// Append must add exactly Text's bytes to whatever the buffer holds already (prefixes that look like parts
+	// of a number included), without touching the prefix
+	for _, prefix := range []string{"", "v1.0: ", "-0.5e+07 ", "x=", "9.", "Inf"} {
+		if (len(c.X.D)+c.Prec+len(prefix))%3 != 0 && prefix != "" {
+			continue // a third of the prefixes per case
+		}
+		buf := append(make([]byte, 0, len(prefix)+3), prefix...)
+		if app := string(x.Append(buf, textVerb[0], fprec)); app != prefix+got {
+			return h.Failf("append", "Append(%q, %q, %d) of %v = %q, Text gives %q", prefix, textVerb, fprec, xv, h.FirstN(app, 300), h.FirstN(got, 300))
+		}
+	}
 	if got != want {
 		return h.Failf("text", "Text(%q, %d) of %v (mode %v, prec %d) = %q, reference %q", textVerb, fprec, xv, mode, c.X.P, h.FirstN(got, 300), h.FirstN(want, 300))
 	}
@@ -278,7 +289,7 @@ func checkC13(c C13Case, o *h.Obs) *h.Fail {
 	return nil
 }
 
-const ruleC13 = "rapid-generated (value, verb/format, precision -1..40 or near the value's digit count / leading-digit position, flags from {+, space, 0, -}, width 0..40). Two oracles. (f64) the value is the exact decimal expansion (<= 767 digits) of a float64 (uniform bits, subnormals, extremes, decimal-looking values n/10^k, dyadic fractions, +-0, +-Inf), mode ToNearestEven: Text(c,p) == strconv.FormatFloat(f,c,p,64) for p >= 0 and fmt.Sprintf(spec, x) == fmt.Sprintf(spec, f). (ref) any Decimal incl. dirty zeros/infinities and 1-12 digit values with tie/all-nines patterns at exponents -45..25, under its own rounding mode: Text == reference formatter (round once with the reference rounding at the requested position, which may lie at or above the leading digit, then strconv's e/f/g layout rules; p and b per the Text documentation), and Format == fmt's sign/width/flag rules applied to that body (the emulation is itself cross-checked against fmt on every f64 case). In one case in eight with a width the width is chosen from the formatted length so that the padding is exactly 31..33, 63..65, 127..129, 255..257, 384, 512, 1000 or 1024 bytes. '-' together with '0' is checked like every other combination ('-' wins, as in fmt). Excluded by construction and counted: '+'/' ' with %v in the fmt differential (fmt's plusV), 'f' with |exp| > 5000. Non-trivial = the value has more digits than requested, or the rounding position is at/above the leading digit, or flags/width are non-default."
+const ruleC13 = "rapid-generated (value, verb/format, precision -1..40 or near the value's digit count / leading-digit position, flags from {+, space, 0, -}, width 0..40). Append onto prefixes that look like parts of a number ('v1.0: ', '-0.5e+07 ', '9.', 'Inf') must equal prefix + Text. Two oracles. (f64) the value is the exact decimal expansion (<= 767 digits) of a float64 (uniform bits, subnormals, extremes, decimal-looking values n/10^k, dyadic fractions, +-0, +-Inf), mode ToNearestEven: Text(c,p) == strconv.FormatFloat(f,c,p,64) for p >= 0 and fmt.Sprintf(spec, x) == fmt.Sprintf(spec, f). (ref) any Decimal incl. dirty zeros/infinities and 1-12 digit values with tie/all-nines patterns at exponents -45..25, under its own rounding mode: Text == reference formatter (round once with the reference rounding at the requested position, which may lie at or above the leading digit, then strconv's e/f/g layout rules; p and b per the Text documentation), and Format == fmt's sign/width/flag rules applied to that body (the emulation is itself cross-checked against fmt on every f64 case). In one case in eight with a width the width is chosen from the formatted length so that the padding is exactly 31..33, 63..65, 127..129, 255..257, 384, 512, 1000 or 1024 bytes. '-' together with '0' is checked like every other combination ('-' wins, as in fmt). Excluded by construction and counted: '+'/' ' with %v in the fmt differential (fmt's plusV), 'f' with |exp| > 5000. Non-trivial = the value has more digits than requested, or the rounding position is at/above the leading digit, or flags/width are non-default."
 
 // carryPastMaxExp: rounding x at the requested position carries into a power of
 // ten whose exponent is MaxExp+1, which the temporary Decimal used by Append
